@@ -200,6 +200,9 @@ func (m *Machine) binop(op token.Token, tx, ty types.Type, x, y value) value {
 				m.tpanic("runtime error: negative shift amount")
 			}
 		}
+		if m.narrow && (op == token.ADD || op == token.SUB || op == token.MUL) {
+			m.narrowArith(op, x, y)
+		}
 		return concreteBinop(op, tx, x, y)
 	}
 	if xss || yss {
@@ -1574,5 +1577,35 @@ func (m *Machine) narrowCheckConcrete(tDst, tSrc types.Type, x value) {
 	}
 	if v < lo || v > hi {
 		m.narrowViolations = append(m.narrowViolations, fmt.Sprintf("lossy narrowing conversion of %d to %v at %s", v, tDst, m.pos()))
+	}
+}
+
+
+// narrowArith flags wrapping 8/16-bit arithmetic inside the target package
+// (narrow monitor, C09).
+func (m *Machine) narrowArith(op token.Token, x, y value) {
+	var a, b, lo, hi int64
+	switch xv := x.(type) {
+	case int16:
+		a, b, lo, hi = int64(xv), int64(y.(int16)), math.MinInt16, math.MaxInt16
+	case int8:
+		a, b, lo, hi = int64(xv), int64(y.(int8)), math.MinInt8, math.MaxInt8
+	default:
+		return
+	}
+	if m.curInstr == nil || m.curInstr.Parent() == nil || m.curInstr.Parent().Pkg != m.target {
+		return
+	}
+	var r int64
+	switch op {
+	case token.ADD:
+		r = a + b
+	case token.SUB:
+		r = a - b
+	case token.MUL:
+		r = a * b
+	}
+	if r < lo || r > hi {
+		m.narrowViolations = append(m.narrowViolations, fmt.Sprintf("8/16-bit arithmetic wraps (%d %s %d) at %s", a, op, b, m.pos()))
 	}
 }
